@@ -179,8 +179,8 @@ func c06Enumerate(tier string, yield func(any)) {
 		}
 		yield(&c06Case{Kind: "sweep", From: from, To: to, Through: true})
 	}
-	// the byte-valued fields the statement names; key ids and addProfessionInfo belong to C07 / C16
-	for _, f := range []string{"issuerUniqueId", "subjectUniqueId", "manip.signatureValue", "manip.tbsPublicKey"} {
+	// the byte-valued fields the statement names, one at a time and all four at once with different values; key ids and addProfessionInfo belong to C07 / C16
+	for _, f := range []string{"issuerUniqueId", "subjectUniqueId", "manip.signatureValue", "manip.tbsPublicKey", "all-four-with-different-values"} {
 		for _, l := range append([]int{0}, c06BodyLens...) {
 			yield(&c06Case{Kind: "bytesfield", Field: f, Len: l})
 		}
@@ -377,6 +377,18 @@ func c06BytesField(x *engine.Ctx, c *c06Case) {
 		cfg.Manip = &refcfg.Manip{SigValue: raw}
 	case "manip.tbsPublicKey":
 		cfg.Manip = &refcfg.Manip{TbsPubKey: raw}
+	case "all-four-with-different-values":
+		// each field its own payload (different length and content): none may take another's value
+		pl := func(i int) *refcfg.Raw {
+			if c.Len == 0 && i == 0 {
+				return refcfg.Empty()
+			}
+			b := c06Payload(c.Len + i + 1)
+			b[0] ^= byte(0x10 << uint(i%4))
+			return refcfg.Bin(b)
+		}
+		cfg.IssuerUID, cfg.SubjectUID = pl(0), pl(1)
+		cfg.Manip = &refcfg.Manip{SigValue: pl(2), TbsPubKey: pl(3)}
 	case "aki.id":
 		if c.Len == 0 {
 			return
